@@ -168,7 +168,10 @@ def child_classes(f, body=None, recvs=None):
                     while rp and (str(rp[-1]).startswith("<") or rp[-1] == "*"):
                         rp = rp[:-1]
                     if rp and rp[0] in pnames and pnames.index(rp[0]) < len(x["args"]):
-                        recvs.add(recv_path(f, x["args"][pnames.index(rp[0])]) + tuple(rp[1:]))
+                        ap = recv_path(f, x["args"][pnames.index(rp[0])])
+                        while ap and (str(ap[-1]).startswith("<") or ap[-1] == "*"):
+                            ap = ap[:-1]          # `&self[..]`: the whole container again
+                        recvs.add(ap + tuple(rp[1:]))
                     elif rp:
                         recvs.add(rp)
             elif c == "savefile::Introspect::introspect_child" and len(x["args"]) == 2 and var_of(x["args"][1]) in derived:
